@@ -8,3 +8,4 @@
 -/
 import ForsysModel.Props.C16
 import ForsysModel.Props.C16system
+import ForsysModel.Props.C16more
